@@ -46,7 +46,8 @@ def environment(chk, prog):
     # read returns exactly what get returns (whether it calls get or spells the lookup out), and raises when that is None
     rg = Evaluator(prog).eval_fn(E.methods["get"], E.module, E)
     r = Evaluator(prog).eval_fn(E.methods["read"], E.module, E)
-    oks = len(r.raises) >= 1 and all(any(is_t(t, "is") and t[2] == C(None) and p for t, p in c_) for c_, _x in r.raises)
+    is_none_test = lambda t: any(is_t(x, "is") and x[2] == C(None) for x in subterms(t))  # `v is None` (distributed over a join of v, if v is one)
+    oks = len(r.raises) >= 1 and all(any(is_none_test(t) and p for t, p in c_) for c_, _x in r.raises)
     for conds, leaf in scenarios(r.ret):
         g_ = rg.ret
         for c_, pol_ in conds:
